@@ -38,8 +38,9 @@ func init() {
 		d := ld.fn("GetDomainFromDistinguishedName")
 		c.str("dn_prefix", d.call("strings.HasPrefix", -1).arg(1), d.call("strings.HasPrefix", -1).arg(1).str())
 		c.str("dn_trimPrefix", d.call("strings.TrimPrefix", -1).arg(1), d.call("strings.TrimPrefix", -1).arg(1).str())
-		dd := d.assign("domain", 1)
-		c.str("dn_joiner", dd, dd.strs()[len(dd.strs())-1])
+		// the label separator: written behind every label into the strings.Builder (`domain.WriteByte('.')`)
+		dd := d.call("domain.WriteByte", -1).arg(0)
+		c.str("dn_joiner", dd, string([]byte{byte(dd.int1().Uint64())}))
 		c.str("dn_trimSuffix", d.call("strings.TrimSuffix", -1).arg(1), d.call("strings.TrimSuffix", -1).arg(1).str())
 	})
 }
